@@ -217,7 +217,13 @@ fn conform<N: Fld>(before: &[C], a: &Act, p: &Polynomial<N>) -> Option<String> {
         if viaget != x {
             return Some(format!("{:?} on {:?}: get_coefficient({}) = {} but get_coefficients() says {}", a, before, k, viaget, x));
         }
-        let rel_ok = (x - y).norm() <= 2.0 * EPS * y.norm();
+        // products with the cubic operand go through the FFT when the receiver has order >= 2: rounding noise of
+        // the transform, 64 eps log2(N) |a|_1 |b|_1, is accepted there (everything else is exact arithmetic)
+        let fft_noise = match a {
+            Act::Bin(2, _, 2) if before.len() >= 3 => 64.0 * EPS * 4.0 * before.iter().map(|v| v.norm()).sum::<f64>() * other::<N>(2).iter().map(|v| v.norm()).sum::<f64>(),
+            _ => 0.0,
+        };
+        let rel_ok = (x - y).norm() <= 2.0 * EPS * y.norm() + fft_noise;
         if !(x == y || rel_ok) {
             return Some(format!("{:?} on {:?}: power {} is {}, reference coefficient map says {} (got {:?})", a, before, k, x, y, got));
         }
@@ -314,13 +320,10 @@ fn edit_model<N: Fld>(name: &str, max_actions: usize) -> Edit<N> {
         }
         "operator-forms" => {
             // every ownership form of every polynomial/scalar operator, against operands of lower, equal and
-            // higher order than the receiver (products with the cubic go through the FFT and belong to C11)
+            // higher order than the receiver (products with the cubic go through the FFT: judged to its rounding noise)
             for op in 0..3u8 {
                 for form in 0..6u8 {
                     for k in 0..3u8 {
-                        if op == 2 && k == 2 {
-                            continue;
-                        }
                         acts.push(Act::Bin(op, form, k));
                     }
                 }
